@@ -132,7 +132,7 @@ class C13:
             if rng.random() < 0.5:
                 for _ in range(rng.randint(1, 2)):
                     noise.append([rng.randint(0, len(deps)), rng.choice(["docker://reg/img:1", "../vendored/x", "urn:cnb:registry:heroku/y", "./local"])])
-            node = {"id": idperm[i], "deps": deps, "noise": noise}
+            node = {"id": idperm[i], "deps": deps, "noise": noise, "rs": rng.random() < 0.3, "no_pkg": rng.random() < 0.3}
             # a third of the buildpacks live inside an earlier buildpack's directory (nested layout)
             if i > 0 and rng.random() < 0.33:
                 node["parent"] = rng.randrange(i)
